@@ -168,7 +168,21 @@ func checkPool(c PoolCase, s *rt.Section) (*rt.Failure, poolFacts) {
 	if sig != "" {
 		return s.NewFailure("no-panic", prefixSig(c.Fn, sig), c, obs, "the function returns for "+c.PoolParams.String()), poolFacts{}
 	}
-	facts, sg, ob, ex := judgePool(c.PoolParams, a, &b, &r, text)
+	pp := c.PoolParams
+	pp.MaxMode = c.Mode == 1
+	facts, sg, ob, ex := judgePool(pp, a, &b, &r, text)
+	if sg == "" && pp.MaxMode {
+		// every die of max mode shows the highest face
+		if pt, err := parsePool(text); err == nil && pt.Shown {
+			for _, g := range pt.Groups {
+				for _, d := range g {
+					if d.V != c.Points {
+						return s.NewFailure("game-rule", c.Fn+":max-mode-face", c, fmt.Sprintf("ret=%d text=%q", a, clipText(text)), fmt.Sprintf("every die = %d under max mode", c.Points)), facts
+					}
+				}
+			}
+		}
+	}
 	if sg != "" {
 		return s.NewFailure("game-rule", sg, c, ob, ex), facts
 	}
@@ -312,11 +326,17 @@ func drawPool(t *rapid.T, s *rt.Section, maxWork float64) PoolCase {
 			c.AddLine += (c.Points + 2 - c.AddLine + 1) / 2
 		}
 	}
-	// min/max mode only where it cannot explode for ever (max mode with an add line <= sides never ends: C15/C07)
+	// min/max mode: where nothing can explode as often as random mode; elsewhere one case in six each
+	// (max mode rolls a single round even when every die reaches the add line; min mode explodes only with add line <= 1)
 	if w, _ := poolWork(c.Pool, c.Points, c.AddLine, c.Fn == "wod"); w == float64(c.Pool) {
 		c.Mode = drawMode(t)
-	} else if rapid.IntRange(0, 11).Draw(t, "minMode") == 0 {
-		c.Mode = -1
+	} else {
+		switch rapid.IntRange(0, 11).Draw(t, "fixedMode") {
+		case 0, 1:
+			c.Mode = -1
+		case 2, 3:
+			c.Mode = 1
+		}
 	}
 	return c
 }
